@@ -65,10 +65,21 @@ var versionAssert = map[string]bool{"exist": true, "content": true, "version": t
 // the implementation promotes the survivor with the youngest created_at, but a null version that
 // was rewritten in place (Suspended/unversioned write) keeps its original created_at although it
 // is the most recently written version. Everything else keeps its default class.
+// c02RewrittenBehind: the null version's row is older than some surviving version that was
+// written before the null version's last rewrite (created_at order != write order).
+func c02RewrittenBehind(vs []*sx.MVersion, null *sx.MVersion) bool {
+	for _, w := range vs {
+		if w != null && null.RowSeq < w.Seq && w.Seq < null.Seq {
+			return true
+		}
+	}
+	return false
+}
+
 func c02Classify(d sx.Diff, c *sx.StepCtx) string {
 	if c.Op.Kind == "Delete" && c.Op.V != "" {
 		if b := c.M.Buckets[c.Op.B]; b != nil {
-			if cur := b.Current(c.Op.K); cur != nil && cur.VID == "null" && len(b.Keys[c.Op.K]) > 1 {
+			if cur := b.Current(c.Op.K); cur != nil && cur.VID == "null" && c02RewrittenBehind(b.Keys[c.Op.K], cur) {
 				if strings.Contains(d.Where, c.Op.B+"/"+c.Op.K) && (d.Class == "version" || d.Class == "content" || d.Class == "etag" || d.Class == "meta") {
 					return "promotion-ignores-rewritten-null-version"
 				}
@@ -92,6 +103,9 @@ var versioningSeeds = [][]sx.Op{
 	// null version written before versioning was enabled, then two versions
 	{{Kind: "CreateBucket", B: "bka"}, {Kind: "Put", B: "bka", K: "k1", Body: "a"}, {Kind: "PutVersioning", B: "bka", Opt: map[string]string{"status": "Enabled"}},
 		{Kind: "Put", B: "bka", K: "k1", Body: "b"}, {Kind: "Put", B: "bka", K: "k1", Body: "a"}},
+	// a null version that is younger than a real version (written during a Suspended period)
+	{{Kind: "CreateBucket", B: "bka"}, {Kind: "PutVersioning", B: "bka", Opt: map[string]string{"status": "Enabled"}}, {Kind: "Put", B: "bka", K: "k1", Body: "a"},
+		{Kind: "PutVersioning", B: "bka", Opt: map[string]string{"status": "Suspended"}}, {Kind: "Put", B: "bka", K: "k1", Body: "b"}},
 }
 
 func TestC02(t *testing.T) {
